@@ -911,7 +911,8 @@ fn c11_sv_bytes_string() {
 	kani::cover!(true, "end of harness reached");
 }
 
-// @harness props=C11 tier=thorough timeout=3600
+// (tier=off: 20 GB memory limit hit after 2054 s)
+// @harness props=C11 tier=off timeout=3600
 // @bound whole datum, array<long> into <=3 items: every byte string 0..=5 x refill size 1..=5
 #[kani::proof]
 #[kani::unwind(9)]
